@@ -23,6 +23,12 @@ CUSIP_ALPHA = ALNUM + "*@#"
 SEDOL_ALPHA = "".join(c for c in ALNUM if c not in "AEIOU")
 
 
+# the ISO 6166 prefixes the library's table held when the property was stated: identifiers under them are ISINs by the public rule, so they keep
+# validating and converting (an entry ADDED to the table is not questioned: the public list grows; one REMOVED or re-keyed makes valid ids fail)
+STATED_AGENCIES = ("AA AR AT AU BE BG BR CA CH CL CN CR CS CY CZ DE DK EE EG ES FI FR GB GR HK HR HU ID IE IL IN IR IS IT JO JP KR KW LB LK LU LV MO MX "
+                   "MY NL NO PA PE PH PK PL PT RO RU SE SG SI SK TH TN TR TW UA US VE XS ZA").split()
+
+
 def translate():
     return gen_ident()
 
@@ -204,6 +210,17 @@ def run(rep, tier, rng):
             cases.append(("validate_isin", x, None))
             if call(U.validate_isin, x) != ("ok", False):
                 fail("validate_isin:wrong-length-validates", "validate_isin(%r) is not False" % (x,), fn="validate_isin", args=[x])
+    # every prefix the table held when the property was stated still names an agency (implementation only: the model's table is the current one)
+    for pre in STATED_AGENCIES:
+        for nsin in ("000000000", "037833100", "B0YBKJ7A1"):
+            b = pre + nsin
+            x = b + ref_isin(b)
+            if call(U.validate_isin, x) != ("ok", True):
+                fail("validate_isin:valid-id-of-a-stated-agency-fails", "validate_isin(%r) -> %r; %s is one of the numbering-agency prefixes and the check digit is the ISO 6166 one"
+                     % (x, call(U.validate_isin, x), pre), fn="validate_isin", args=[x], expected=True)
+        out = call(U.cusip2isin, "037833100", pre)
+        if out != ("ok", pre + "037833100" + ref_isin(pre + "037833100")):
+            fail("cusip2isin:stated-agency-refused", "cusip2isin('037833100', %r) -> %r" % (pre, out), fn="cusip2isin", args=["037833100", pre])
     for b in sub(cusip_bases, 2000):
         want = ref_cusip(b)
         for x in (b, b + want + "0", (b + want)[1:]):
